@@ -240,8 +240,10 @@ qb_log_blackbox_print_from_file(const char *bb_filename)
 	/* Read the header. If it looks like one of ours then
 	   we know we have hi-res timestamps */
 	err = read(fd, &header, sizeof(header));
-	if (err < sizeof(header)) {
-		saved_errno = errno;
+	if (err < (int)sizeof(header)) {
+		/* errno is meaningful only when read() failed; a file that
+		 * is too short to be a blackbox is an I/O error as well */
+		saved_errno = (err < 0) ? errno : EIO;
 		close(fd);
 		return -saved_errno;
 	}
